@@ -249,7 +249,7 @@ def zero_weight_case(link, Dx, Dy, Dk, signs, timeout=900):
     return Case(cid, PROP, cfg, declare, fn, claims, timeout=timeout)
 
 
-def tightness_case(link, Dx, Dy, Dk, signs, timeout=1200):
+def tightness_case(link, Dx, Dy, Dk, signs, timeout=1200, mode="jvp", prop=None):
     """C17, 'the gap vanishes quadratically as the input weights shrink' (exp, cosh-1), restated as the first-order
     condition at zero weights: with W = [w0, eps * wdir], d/d eps of the returned value at eps = 0 equals d/d eps of the
     true expected log-density at eps = 0 (which, unlike the expectation itself, has a closed form:
@@ -259,6 +259,11 @@ def tightness_case(link, Dx, Dy, Dk, signs, timeout=1200):
     sg = "".join("p" if s > 0 else "m" for s in signs)
     cid = f"C17/first-order-tight/{link}/Dx{Dx}Dy{Dy}Da{Dy}Dk{Dk}/w0{sg}"
     cfg = dict(clause="gap has zero slope at zero input weights (quadratic tightness, first-order condition)", link=link, Dx=Dx, Dy=Dy, Da=Dy, Dk=Dk, offset_signs=list(signs))
+    if mode == "grad":
+        # C18: the reverse-mode gradient the user gets (jax.grad, the library's stop_gradient untouched) w.r.t. the scale of the
+        # noise-unit input weights at 0 equals the exact derivative of the returned value there
+        cid = f"{prop}/grad/het-bound-{link}/Dx{Dx}Dy{Dy}Dk{Dk}/w0{sg}"
+        cfg = dict(pipeline="jax.grad of Heteroscedastic*Conditional.integrate_log_conditional_y w.r.t. the weight scale at 0", link=link, Dx=Dx, Dy=Dy, Dk=Dk, offset_signs=list(signs))
 
     def declare(b):
         _declare_zero_weight(b, Dx, Dy, Dk, signs, True)
@@ -274,6 +279,9 @@ def tightness_case(link, Dx, Dy, Dk, signs, timeout=1200):
             W = jnp.concatenate([A["w0"][:, None], eps * A["wdir"]], axis=1)
             c = make_het(link, {"M": A["M"], "bv": A["bv"], "A": A["A"], "W": W})
             return c.integrate_log_conditional_y(px, y=A["y"])
+        if mode == "grad":
+            val, dval = jax.value_and_grad(lambda e: f(e)[0])(jnp.zeros(()))
+            return {"val": val[None], "dval": dval[None]}
         orig = lax.stop_gradient
         lax.stop_gradient = lambda x: x
         try:
@@ -301,7 +309,7 @@ def tightness_case(link, Dx, Dy, Dk, signs, timeout=1200):
         return [("zero weights: value", O["val"], _homoscedastic_expectation(I, ops, link, Dx, Dy, Dk)),
                 ("d/d eps of integrate_log_conditional_y at eps=0 = d/d eps of E_p[ln p(y|x)] at eps=0", O["dval"], tot)]
 
-    return Case(cid, PROP, cfg, declare, fn, claims, timeout=timeout)
+    return Case(cid, prop or PROP, cfg, declare, fn, claims, timeout=timeout)
 
 
 def _const_cov(I, ops, link, Dy, Dk):
